@@ -498,7 +498,8 @@ def _split_expr_over_interface(expr, interface, tests=None, trials=None):
                 if interface.minus in bnd_expressions:
                     newexpr += bnd_expressions[interface.minus]
 
-                bnd_expressions[interface.minus] = newexpr
+                # the piece lives on the minus face (as in the bilinear case)
+                bnd_expressions[interface.minus] = newexpr.subs(interface, interface.minus)
             # ...
             # ...
             newexpr = _nullify(expr, v_plus, tests)
@@ -514,7 +515,8 @@ def _split_expr_over_interface(expr, interface, tests=None, trials=None):
                 if interface.plus in bnd_expressions:
                      newexpr += bnd_expressions[interface.plus]
 
-                bnd_expressions[interface.plus] = newexpr
+                # the piece lives on the plus face (as in the bilinear case)
+                bnd_expressions[interface.plus] = newexpr.subs(interface, interface.plus)
             # ...
 
     int_expressions = list(int_expressions.values())
